@@ -76,8 +76,26 @@ def readconst_stream(rng, driver, n):
     return lines
 
 
+def llvm_reference(res, findings, tier, rng, harness, prop="C01", more=()):
+    """LLVM 14 as the arbiter of "valid LLVM IR" and "denotes the same module" on the catalogue, the corpus and generated modules (also re-spelled)"""
+    from . import pC02, refstage
+    texts = [(n, t) for n, t, _ in catalog.all_entries(regen.enum_table(harness))]
+    texts += [("corpus-%d" % i, t) for i, t in enumerate(modprops.corpus_texts())]
+    k = 40 if tier == "quick" else 1500
+    for i, (m, text, sk) in enumerate(modprops.gen_modules(rng, k)):
+        texts.append(("generated-%d" % i, text))
+        texts.append(("generated-%d-respelled" % i, pC02.respell(rng, text)))
+    texts += list(more)
+    if tier == "quick":
+        keep = [x for x in texts if not x[0].startswith(("FuncAttr.", "ParamAttr.", "DwarfOp.", "DwarfTag.", "DwarfLang.", "DwarfAttEncoding.", "CallingConv."))]
+        rest = [x for x in texts if x not in keep]
+        texts = keep + rng.sample(rest, min(60, len(rest)))
+    return refstage.run(res, findings, harness, prop, texts)
+
+
 def extra(res, findings, tier, rng, harness, driver):
-    return {"constructs_covered_by_generator": CONSTRUCTS,
+    ref = llvm_reference(res, findings, tier, rng, harness)
+    return {**ref, "constructs_covered_by_generator": CONSTRUCTS,
             "mcore_constructs": ["opaque type definitions", "integer global variable definitions"],
             "mcore2_constructs": ["identified struct type definitions (opaque, literal body, packed body, recursive through pointers)", "global / constant variables of any type",
                                   "integer constants of any width incl. i1", "zeroinitializer / null / undef", "nested struct / packed struct / array / vector constants"]}
